@@ -136,8 +136,14 @@ impl<Body> AmendedRequest<Body> {
         self.headers
             .iter()
             .map(|v| (&v.0, &v.1))
-            .chain(self.request.headers().iter())
-            .filter(|v| !self.unset.iter().any(|x| x == v.0))
+            // Unsetting only applies to the headers of the original request. Headers the
+            // user sets on this request (such as cookies for a redirect) must be sent.
+            .chain(
+                self.request
+                    .headers()
+                    .iter()
+                    .filter(|v| !self.unset.iter().any(|x| x == v.0)),
+            )
     }
 
     fn headers_get_all(&self, key: &'static str) -> impl Iterator<Item = &HeaderValue> {
